@@ -191,7 +191,7 @@ class Unit:
                 self.obligations.append({
                     'name': kv.get('as', kv['fn']), 'fn': kv['fn'], 'kind': 'contract-on-real-code',
                     'props': props, 'lines': [start, end], 'file': src.display,
-                    'container': kv.get('in'), 'sha256': man['sha256'],
+                    'container': kv.get('in'), 'sha256': man['sha256'], 'vname': kv.get('vname'),
                 })
                 continue
             # plain template line
